@@ -223,6 +223,28 @@ int main(int argc, char** argv) {
     if (gf != ef) viol("decode/form", "form_urlencoded_decode(\"" + show(s) + "\") = \"" + show(gf) + "\" expected \"" + show(ef) + "\"", wit("decode", "", s), s.size());
   });
   R.count("decode_strings", nd);
+  // every escape candidate: '%' followed by EVERY ordered pair of byte values (65,536), bare, after a prefix and before a
+  // suffix that is itself a valid escape; both decoders against the model (the hex-digit test is a 256-entry decision)
+  {
+    uint64_t ne = 0;
+    for (int x = 0; x < 256; x++)
+      for (int y = 0; y < 256; y++) {
+        if (int(ord++ % ns) != sh) continue;
+        std::string core = std::string("%") + char(x) + char(y);
+        for (int form = 0; form < 3; form++) {
+          std::string s2 = form == 0 ? core : form == 1 ? "ab" + core + "%41" : "%4" + core + "+";
+          R.evaluations++; R.nontrivial++;
+          set_case(wit("decode", "", s2));
+          std::string g = ada::unicode::percent_decode(s2, s2.find('%')), e = refurl::percent_decode(s2);
+          std::string gf = ada::unicode::form_urlencoded_decode(s2), ef = reflist::form_decode(s2);
+          R.outcome(hash64(e));
+          if (g != e) viol("decode/percent-pair", "percent_decode(\"" + show(s2) + "\") = \"" + show(g) + "\" expected \"" + show(e) + "\"", wit("decode", "", s2), s2.size());
+          if (gf != ef) viol("decode/form-pair", "form_urlencoded_decode(\"" + show(s2) + "\") = \"" + show(gf) + "\" expected \"" + show(ef) + "\"", wit("decode", "", s2), s2.size());
+          ne++;
+        }
+      }
+    R.count("escape_pair_strings", ne);
+  }
   extra["roundtrip_maxlen"] = std::to_string(maxlen); extra["sets"] = "7"; extra["fillers"] = std::to_string(fill.size());
   R.sample(JObj().str("set", "path").str("byte", "0x5e '^'").str("expect", "encoded as %5E").done());
   R.write(A.out, extra);
